@@ -2075,6 +2075,15 @@ impl Connection {
         );
 
         self.process_decrypted_packet(now, remote, Some(packet_number), packet.into())?;
+        if self.state.is_closed() {
+            // The first packet already carried a CONNECTION_CLOSE. Perform the same transition
+            // `handle_packet` does for later packets, so that the connection stops its timers and
+            // drains instead of lingering (and being reported lost a second time by the idle timer).
+            self.close_common();
+            if !self.state.is_drained() {
+                self.set_close_timer(now);
+            }
+        }
         if let Some(data) = remaining {
             self.handle_coalesced(now, remote, ecn, data);
         }
